@@ -108,8 +108,10 @@ def handleScan (ds : DState) (sc : ScanCase) : DState × Json :=
   | none => (ds, Json.mkObj [("error", "scan before init")])
   | some st =>
     let o := listOracle sc.resps.toArray sc.desc
+    -- a group whose listing failed sees nothing in this scan: `scaleNodeGroup` returns before it starts (modelled as
+    -- the empty view, which takes the same exit: no call, decision 0)
     let views := fun name => match ds.ctl.cfgs.find? (fun c => c.name == name) with
-      | some c => viewOf c sc.pods sc.nodes
+      | some c => if (sc.listfail.getD []).contains name then ⟨[], []⟩ else viewOf c sc.pods sc.nodes
       | none => ⟨[], []⟩
     let hints := fun name => (sc.hints.lookup name).getD ⟨[], []⟩
     let r := runOnce rne64 o 0 ds.ctl st views hints sc.nowMock sc.nowReal
@@ -231,7 +233,10 @@ def handleScan (ds : DState) (sc : ScanCase) : DState × Json :=
       else []
     -- C12: a failure that is not one of the documented stop conditions must not keep later groups from being processed
     let mon12 : List String :=
-      if sc.obs.outcome.startsWith "fatal:unexpected" then
+      if sc.obs.outcome.startsWith "panic:" && sc.obs.recs.length < ds.ctl.cfgs.length then
+        ["C12:" ++ ((sc.obs.recs.getLast?.map (·.name)).getD "?") ++ ":groups-after-it-not-processed:" ++
+          toString (ds.ctl.cfgs.length - sc.obs.recs.length) ++ ":" ++ sc.obs.outcome]
+      else if sc.obs.outcome.startsWith "fatal:unexpected" then
         ["C12:" ++ ((sc.obs.recs.getLast?.map (·.name)).getD "?") ++ ":groups-after-it-not-processed:" ++
           toString (ds.ctl.cfgs.length - sc.obs.recs.length) ++ ":" ++ sc.obs.outcome]
       else []
@@ -276,6 +281,23 @@ def handleScan (ds : DState) (sc : ScanCase) : DState × Json :=
           let d := "group " ++ ol.name ++ " lists pods " ++ toString extraP ++ " it must not and misses " ++ toString missP ++
                    "; nodes extra " ++ toString extraN ++ " missing " ++ toString missN
           ["C14:attribution:" ++ d, "C12:attribution:" ++ d])
+    -- C14/C12 on the calls themselves: a node named in a call made while processing a group carries that group's label
+    -- (judged on the cluster-wide listing of this scan, whatever the group's own lister returned or failed to return)
+    let monTouch : List String := sc.obs.recs.flatMap (fun ob =>
+      match ds.ctl.cfgs.find? (fun c => c.name == ob.name) with
+      | none => []
+      | some c =>
+        let mine := (sc.nodes.filter (nodeLabelFilter c.labelKey c.labelValue)).map (·.name)
+        let known := sc.nodes.map (·.name)
+        let touched := ob.j.filterMap (fun e => match e.call with
+          | .getNode n | .deleteNode n => some n
+          | .updateNode o => some o.name
+          | _ => none)
+        let bad := (touched.filter (fun n => known.contains n && !mine.contains n)).eraseDups
+        if bad.isEmpty then [] else
+          ["C14:group " ++ ob.name ++ " acted on nodes that do not carry its label: " ++ toString bad,
+           "C12:group " ++ ob.name ++ " acted on nodes that do not carry its label: " ++ toString bad])
+    let mons := mons ++ monTouch
     -- shared informer objects must not be modified by the controller (the next scan would read the modification)
     let monMut : List String := (sc.mutated.getD []).flatMap (fun x =>
       ["C13:lister-object-modified:" ++ x, "C15:lister-object-modified:" ++ x])
